@@ -91,6 +91,12 @@ def check_subsystem(ctx, side, res, msg, plant, case, where, model):
                 and close(rec.co2_emissions_kg.tank_to_wake, float(row["CO2 emission [kg]"].tank_to_wake_kg_or_gco2eq_per_gfuel), scale=1.0)
             if side == "electric":
                 ok = ok and close(rec.energy_stored_mj, row["energy_stored [MJ]"], scale=1.0)
+            # NOx of the record: the row's figure; a component that emits none has an empty cell there, which is exported as 0 - never
+            # as something that is not a number (a flaw of D123 turned empty cells into NaN; the seeded demonstrations saw it first)
+            nox_row = row["NOx emission [kg]"] if "NOx emission [kg]" in row.index else None
+            nox_want = 0.0 if nox_row is None else nox_row
+            if not np.isfinite(rec.nox_emissions_kg) or not close(rec.nox_emissions_kg, float(nox_want), scale=1.0):
+                ctx.fail("predicate", "detail-record-nox", f"{side}: record {rec.component_name}: NOx {rec.nox_emissions_kg} in the message, {nox_row!r} in the row", where)
             if not ok:
                 ctx.fail("predicate", "detail-record-differs", f"{side}: record {rec.component_name} vs row {name}", where)
     # ---- series
